@@ -27,6 +27,20 @@ TRUSTED_BASE = [
     "modelled, not verified: safe-Rust semantics, bytes crate, asynchronous-codec FramedRead2/FramedWrite2 loops, scc/crossbeam/parking_lot, tokio, the OS",
 ]
 
+# which regenerated constants each property's theorems rest on (a constant the translator cannot find breaks
+# the tie of these properties only; for the others the committed last-known value keeps the model running and
+# a behavioural change still shows up in the correspondence)
+_DEC = r"^(dec_|greeting_|decode_|gr_parse|cmd_parse|read_chunk)"
+GEN_RELEVANT = {
+    "C01": r"^(enc_|cmd_flag|cmd_short|cmd_long|cmd_nlen|cmd_vlen|gr_len|gr_sig|gr_major_off|gr_minor_off|gr_mech_off|gr_server_off|gr_default)",
+    "C02": _DEC, "C03": _DEC[:-1] + r"|matrix|sub_replay_unwraps)",
+    "C04": r"^(matrix|max_id|id_guard|version_cmp|gr_parse|gr_default|cmd_parse)",
+    "C07": r"^(req_min|rep_min|rep_rejects)", "C08": r"^(req_min|rep_min|req_recv)", "C09": r"^(max_id)",
+    "C11": r"^(pub_|xpub_|sub_op)", "C12": r"^(hwm)", "C13": r"^(sub_)", "C14": r"^(req_recv)",
+    "C16": r"^(rep_disconnect|sub_disconnect|dealer_error|router_send_error|rep_send_error|req_send_error|req_recv_error)",
+    "C17": r"^(generic_shutdown|rep_shutdown|sub_shutdown|xpub_shutdown|queue_clear|sockets_with_drop)",
+}
+
 AXIOM_ALLOW = set()  # names of standard-library axioms tolerated under property theorems (none so far)
 
 
@@ -182,7 +196,10 @@ def run_model(case_lines, tag):
     os.makedirs(os.path.dirname(path), exist_ok=True)
     with open(path, "w") as f:
         f.write("\n".join(case_lines) + "\n")
-    rc, out, _ = sh("ulimit -s unlimited 2>/dev/null; exec %s %s" % (ZVM, path), timeout=3000)
+    try:
+        rc, out, _ = sh("ulimit -s unlimited 2>/dev/null; exec timeout 900 %s %s" % (ZVM, path), timeout=1000)
+    except subprocess.TimeoutExpired:
+        out = ""
     res = {}
     for line in out.splitlines():
         sp = line.split(" ", 1)
@@ -384,6 +401,7 @@ def finish(pid, tier, seed, t0, proof, corr, violations, extra_cov=None, assumpt
         "theorems": proof.get("theorems", []),
         "assumptions_report": proof.get("assumptions_report", ""),
         "pin_hash": proof.get("pin_hash"),
+        "coqchk": proof.get("coqchk"),
         "gen_paths": proof.get("gen_paths", {}),
         "evaluations": corr.get("evaluations", 0),
         "distinct_nontrivial": corr.get("distinct_nontrivial", 0),
@@ -403,7 +421,21 @@ def finish(pid, tier, seed, t0, proof, corr, violations, extra_cov=None, assumpt
     return rc
 
 
-def prove(pid, gen_info, extra_targets=()):
+def coqchk(pid, timeout=1500):
+    """independent re-check of the compiled property file and everything it depends on"""
+    rc, out, dt = sh(["timeout", str(timeout), "coqchk", "-o", "-silent", "-Q", ".", "ZV", "ZV.Properties." + pid], cwd=COQ)
+    m = re.search(r"\* Axioms:\s*(.*?)\n\s*\n", out, re.S)
+    axioms = m.group(1).strip() if m else "?"
+    bad = []
+    for key in ("type-in-type", "unsafe (co)fixpoints", "positivity is assumed"):
+        mm = re.search(re.escape(key) + r":\s*(.*?)\n", out)
+        if mm and mm.group(1).strip() != "<none>":
+            bad.append(key + ": " + mm.group(1).strip())
+    ok = rc == 0 and axioms == "<none>" and not bad
+    return ok, "coqchk rc=%d axioms=%s %s (%.0fs)" % (rc, axioms, "; ".join(bad), dt)
+
+
+def prove(pid, gen_info, extra_targets=(), tier="quick"):
     """Build the property's theorem file; scan hygiene, assumptions and pins.
     Returns (proof_dict, broken_list)."""
     broken = []
@@ -437,11 +469,20 @@ def prove(pid, gen_info, extra_targets=()):
             broken.append("theorem depends on axioms outside the allow-list: %s" % sorted(set(notclosed)))
         if len(ass) < len(names):
             broken.append("missing Print Assumptions under a property theorem (%d < %d)" % (len(ass), len(names)))
+    if tier == "thorough" and not broken:
+        with Lock("coq"):
+            okc, rep = coqchk(pid)
+        proof["coqchk"] = rep
+        proof["checker_cmd"] += " ; coqchk -o -silent -Q . ZV ZV.Properties." + pid
+        if not okc:
+            broken.append("independent checker: " + rep)
     hy = hygiene()
     if hy:
         broken.append("hygiene: " + "; ".join(hy[:5]))
-    if gen_info.get("missing"):
-        broken.append("translator could not find: " + ",".join(gen_info["missing"]))
+    rel = [m for m in gen_info.get("missing", []) if re.match(GEN_RELEVANT.get(pid, r"^$"), m)]
+    if rel:
+        broken.append("translator could not find (relevant to %s): %s" % (pid, ",".join(rel)))
+    proof["gen_missing"] = gen_info.get("missing", [])
     return proof, broken
 
 
